@@ -77,6 +77,23 @@ def run(ctx, rep):
 
     def err_var_blocks(var):
         return [bi for (b, bi, s) in cons if b.path == CP.path and s[2][1][2] == var]
+    # private helpers of the check module that check_pack calls directly (a per-blob verification extracted into a fn)
+    HELPERS = {}
+    for bb_, t_ in CP.calls():
+        if "callee" in t_ and callee(t_).startswith("rustic_core::commands::check::") and callee(t_) in prog.bodies and callee(t_) != CP.path:
+            HELPERS.setdefault(callee(t_), []).append(bb_)
+
+    def err_var_sites(var):
+        """[(body, block, [call-site blocks in check_pack])] of the constructions of CheckError::var in check_pack or a direct helper"""
+        out = []
+        for (b, bi, s) in cons:
+            if s[2][1][2] != var:
+                continue
+            if b.path == CP.path:
+                out.append((CP, bi, []))
+            elif b.path in HELPERS:
+                out.append((b, bi, HELPERS[b.path]))
+        return out
 
     LAYERS = []
 
@@ -100,18 +117,22 @@ def run(ctx, rep):
 
     def check_layers():
         for (var, cond_rx, desc) in LAYERS:
-            blks = err_var_blocks(var)
+            sites_ = err_var_sites(var)
             ok = False
             extra = []
-            for bi in blks:
-                for (sw, succ) in C.transitive_control_deps(CP, bi):
-                    e = flow.expr_of(CP, CP.term(sw)["discr"])
+            for (B, bi, callers) in sites_:
+                for (sw, succ) in C.transitive_control_deps(B, bi):
+                    e = flow.expr_of(B, B.term(sw)["discr"])
                     k = cond_kind(e)
                     if k == "layer:" + var:
                         ok = True
                     elif k == "other":
-                        extra.append(where(CP, sw) if CP.term(sw).get("span") else f"bb{sw}")
-            rep.check("C05.b", f"layer/{var}", ok and bool(blks), where=CP.loc(), what=f"check_pack: {desc} -> {var} reported on mismatch" if ok else f"check_pack no longer compares {desc} (no {var} on mismatch)")
+                        extra.append(where(B, sw) if B.term(sw).get("span") else f"bb{sw}")
+                for cb in callers:
+                    for (sw, succ) in C.transitive_control_deps(CP, cb):
+                        if cond_kind(flow.expr_of(CP, CP.term(sw)["discr"])) == "other":
+                            extra.append(where(CP, sw) if CP.term(sw).get("span") else f"bb{sw}")
+            rep.check("C05.b", f"layer/{var}", ok and bool(sites_), where=CP.loc(), what=f"check_pack: {desc} -> {var} reported on mismatch" if ok else f"check_pack no longer compares {desc} (no {var} on mismatch)")
             rep.check("C05.b", f"unconditional/{var}", not extra, where=CP.loc(),
                       what=f"check_pack: the {var} verification depends only on the earlier layers having passed" if not extra else
                            f"check_pack: the {var} verification is additionally guarded by an unrelated condition at {sorted(set(extra))}: it is skipped for some packs/blobs")
@@ -167,10 +188,46 @@ def run(ctx, rep):
         for a in t["args"][1:]:
             e = flow.expr_of(CR, a)
             fc.append(e)
-    cl = [c for c in prog.closures_of(CR, recursive=False) if any("callee" in t and re.search(r"::contains_key$|::contains$", callee(t)) for _, t in c.calls())]
-    names = sorted(callee(t).rsplit("::", 1)[-1] for c in cl for _, t in c.calls() if "callee" in t and re.search(r"::contains_key$|::contains$", callee(t)))
-    rep.check("C05.c", "read-data-filters", len(filt) == 2 and len(appl) == 1 and names == ["contains", "contains_key"], where=CR.loc(),
-              what=f"the packs read are the index packs filtered only by 'not missing' and 'used by a checked tree', then the read-data subset ({len(filt)} filters: {names})")
+    # the filter predicates, whatever their number and spelling: evaluated as a truth table over (listed as missing, used by a
+    # checked tree) the conjunction of all filter closures keeps a pack exactly when it is not missing and used
+    fcl = []
+    for bb, t in filt:
+        for a_ in t["args"][1:]:
+            for d_ in CR.defs().get(op_local(a_), []):
+                if d_[0] == "stmt" and d_[4][0] == "agg" and d_[4][1][0] == "closure" and d_[4][1][1] in prog.bodies:
+                    fcl.append(prog.bodies[d_[4][1][1]])
+    table = {}
+    for ck in (False, True):
+        for cu in (False, True):
+            def ev(b_, e, ck=ck, cu=cu):
+                if isinstance(e, tuple) and e and e[0] == "call":
+                    if re.search(r"::contains_key$", e[1]):
+                        return ck
+                    if re.search(r"::contains$", e[1]):
+                        return cu
+                return None
+            keep = True
+            for c_ in fcl:
+                vals = bool_result_under(c_, ev)
+                if vals == {True}:
+                    continue
+                if vals == {False}:
+                    keep = False if keep is not None else None
+                else:
+                    keep = None if keep is not False else False
+            table[(ck, cu)] = keep
+    want = {(ck, cu): ((not ck) and cu) for ck in (False, True) for cu in (False, True)}
+    okf = bool(fcl) and len(fcl) == len(filt) and table == want
+    # no other adaptor between the index and the subset selection drops packs
+    drops = []
+    if len(appl) == 1:
+        ap = CR.term(appl[0])
+        pl = op_place(ap["args"][1]) if len(ap["args"]) > 1 else None
+        if pl:
+            drops = sorted(c for c in flow.backward_slice(CR, pl)["calls"] if re.search(r"Iterator::(take|skip|step_by|take_while|skip_while|filter_map|flat_map|map_while|scan)$", c))
+    rep.check("C05.c", "read-data-filters", okf and len(appl) == 1 and not drops, where=CR.loc(),
+              what=f"the packs read are the index packs kept exactly when 'not listed missing' and 'used by a checked tree' (truth table of {len(fcl)} filter closure(s)), then the read-data subset" if okf and not drops else
+                   f"the set of packs whose data is read is not exactly 'not missing and used' (truth table (missing, used) -> keep: {sorted(table.items())}; other dropping adaptors: {drops})")
     # check_trees inserts the pack of every resolved blob
     CT = prog.find1(r"^rustic_core::commands::check::check_trees$")
     fam = [CT] + prog.closures_of(CT)
